@@ -20,6 +20,8 @@ def gen_history(rng, tier, force=None):
     nw = rng.randint(3, 10) if tier == "quick" else rng.randint(5, 30)
     model = {}
     ops = []
+    HX.pick_alphabet(rng)
+    fan = HX.gen_fan(rng) if rng.random() < 0.08 else None
 
     def probes(inside):
         ks = HX.related_keys(model.keys())
@@ -33,7 +35,19 @@ def gen_history(rng, tier, force=None):
             out.append(("state",))
         return out
 
-    if rng.random() < 0.15:
+    if fan:
+        # a full 16-child branch, thinned out again (direct, or the thinning inside a batch)
+        cut = 16 + (1 if fan[16][0] == "set" else 0) if mode != "direct" else len(fan)
+        for w in fan[:cut]:
+            HX.apply_model(model, w)
+            ops.append(w)
+        if fan[cut:]:
+            for w in fan[cut:]:
+                HX.apply_model(model, w)
+            ops.append(("batch", fan[cut:], None))
+        ops.extend(probes(False))
+        nw = max(2, nw // 2)
+    elif rng.random() < 0.15:
         # two identical hashed leaves, then removal of one (direct, or inside a batch)
         fam = HX.gen_shared_family(rng)
         if mode != "direct" and rng.random() < 0.5:
@@ -62,12 +76,19 @@ def gen_history(rng, tier, force=None):
         if batched:
             n = rng.randint(1, 4)
             inner = []
+            saved_before = dict(model)
             for _ in range(n):
                 w = HX.gen_write(rng, model.keys(), long_pool)
                 HX.apply_model(model, w)
                 inner.append(w)
                 inner.extend(probes(True)[:4])
                 i += 1
+            # sometimes part of the block is itself a squash_changes block on the batch trie (committed or aborted)
+            inner = HX.nest_some(rng, inner, 0.3)
+            model.clear()
+            model.update(saved_before)
+            for w in inner:
+                HX.apply_model(model, w)
             ops.append(("batch", inner, None))
         else:
             w = HX.gen_write(rng, model.keys(), long_pool)
@@ -119,6 +140,18 @@ def corpus():
     c.append({"prune": False, "mode": "direct", "ops": [
         ("set", b"", b"v"), ("set", b"\x01", b"w" * 33), ("set", b"\x01\x00", b"x"), ("get", b""), ("get", b"\x01"),
         ("del", b"\x01"), ("get", b"\x01"), ("get", b"\x01\x00"), ("set", b"", b""), ("get", b""), ("state",)]})
+    # a key whose value sits in a hashed branch behind an extension, overwritten with another value of the same length
+    ow = [("set", b"\x12\x34\x10", b"b" * 40), ("set", b"\x12\x34\x20", b"c" * 40), ("set", b"\x12\x34", b"1" * 32),
+          ("set", b"\x12\x34", b"2" * 32), ("get", b"\x12\x34"), ("set", b"\x12\x34\x10", b"d" * 40), ("get", b"\x12\x34\x10"),
+          ("get", b"\x12\x34\x20"), ("state",)]
+    c += [{"prune": p, "ops": ow, "mode": "direct"} for p in (False, True)]
+    c.append({"prune": False, "mode": "batched", "ops": [("batch", ow[:3], None), ("batch", ow[3:-1], None), ("get", b"\x12\x34"), ("state",)]})
+    # a squash_changes block opened on the batch trie (D4)
+    c.append({"prune": True, "mode": "batched", "ops": [
+        ("set", b"\x01\x01", b"a" * 40), ("set", b"\x01\x02", b"b" * 40),
+        ("batch", [("set", b"\x02", b"c" * 40), ("batch", [("set", b"\x03", b"d" * 40), ("del", b"\x01\x01")], None),
+                   ("get", b"\x03"), ("get", b"\x01\x01"), ("batch", [("set", b"\x04", b"e")], 1), ("get", b"\x04")], None),
+        ("get", b"\x03"), ("get", b"\x01\x01"), ("get", b"\x02"), ("get", b"\x04"), ("state",)]})
     return c
 
 
